@@ -365,7 +365,14 @@ def gen_C07(rng, tier):
             add_applies(rng, c, ops, rng.randint(1, 4))
         elif pc['threads']:
             add_map(rng, c, ops, fail=rng.choice([0, 0, 0.2]))
-    ops.append(['sleep', rng.choice([0, 0, 0.01, 0.3, 1.0, 3.0])])
+    if pc['threads'] and rng.random() < 0.2:
+        # close() placed in the middle of a supervision pass that replaces several workers at once
+        pc['processes'] = rng.randint(2, 4)
+        pc['maxtasksperchild'] = 1
+        add_applies(rng, c, ops, pc['processes'], mk=lambda: prog_ok(rng, maxticks=1, sleep=0.05))
+        ops.append(['at', 'mid-repopulate', 5.0])
+    else:
+        ops.append(['sleep', rng.choice([0, 0, 0.01, 0.3, 1.0, 3.0])])
     ops.append(['close'])
     if rng.random() < 0.3:
         ops.append(['apply', c.uid(), prog_ok(rng), {'after_close': True}])
@@ -398,7 +405,12 @@ def gen_C08(rng, tier):
             uids += add_applies(rng, c, ops, 1)
     how = rng.choice(['terminate', 'terminate', 'terminate', 'terminate_twice', 'drop', 'with', 'terminate_job',
                       'operator'])
-    ops.append(['sleep', rng.choice([0, 0, 0.01, 0.1, 0.5, 1.0, 2.5])])
+    if pc['threads'] and rng.random() < 0.15:
+        # terminate() placed in the middle of a supervision pass that is adding several workers
+        ops.append(['grow', rng.randint(2, 3)])
+        ops.append(['at', 'mid-repopulate', 5.0])
+    else:
+        ops.append(['sleep', rng.choice([0, 0, 0.01, 0.1, 0.5, 1.0, 2.5])])
     if how == 'terminate_job' and uids:
         u = rng.choice(uids)
         ops.append(['wait_accepted', u, 5.0])
